@@ -388,6 +388,25 @@ func runEffect(c *core.Ctx, keepEntry func(*ssa.Function) bool) {
 					c.Fail(construct, x.Pos(), "a map reachable from an error object is updated on a path reachable from a read-only operation", via)
 				}
 			case *ssa.Call:
+				// append into the spare capacity of a slice that is not fresh: a write into a backing array somebody else
+				// owns (res := causes[:0]; res = append(res, c) filters "in place" the slice an error handed out)
+				if b, ok := x.Call.Value.(*ssa.Builtin); ok && b.Name() == "append" && len(x.Call.Args) >= 1 {
+					s0 := x.Call.Args[0]
+					if sx.IsNil(s0) || fresh(s0, 0) {
+						return
+					}
+					if !isShared(s0.Type()) {
+						return
+					}
+					nStores++
+					// appending to a full slice reallocates; only a slice expression that lowers the length (x[:k]) is
+					// known to have spare capacity over live elements
+					if sl := lowersLength(s0, 0); sl != nil {
+						c.Fail(fmt.Sprintf("%s: append into %s", load.FnName(fn), describeVal(s0)), x.Pos(),
+							"append writes into the spare capacity of a re-sliced, non-fresh slice ("+load.TypeName(s0.Type())+"): the elements of a backing array owned by an error object (or handed out by its Unwrap() []error) are overwritten on a path reachable from a read-only operation - concurrent observers race, and observing can change the error", via)
+					}
+					return
+				}
 				// package-level atomic state
 				f := sx.Callee(x)
 				if f == nil || load.FnPkg(f) == nil || load.FnPkg(f).Path() != "sync/atomic" || len(x.Call.Args) == 0 {
@@ -466,4 +485,33 @@ func describeAddr(a ssa.Value) string {
 		return "package variable " + x.Name()
 	}
 	return describeVal(a)
+}
+
+// lowersLength: v is (a phi / re-append over) a slice expression x[:k] or x[i:j] whose length can be below the
+// capacity of x's backing array while x's elements are live.
+func lowersLength(v ssa.Value, d int) *ssa.Slice {
+	if d > 6 {
+		return nil
+	}
+	switch x := v.(type) {
+	case *ssa.Slice:
+		if x.High != nil && x.Max == nil {
+			return x
+		}
+		return lowersLength(x.X, d+1)
+	case *ssa.Phi:
+		for _, e := range x.Edges {
+			if e == v {
+				continue
+			}
+			if s := lowersLength(e, d+1); s != nil {
+				return s
+			}
+		}
+	case *ssa.Call:
+		if b, ok := x.Call.Value.(*ssa.Builtin); ok && b.Name() == "append" {
+			return lowersLength(x.Call.Args[0], d+1)
+		}
+	}
+	return nil
 }
